@@ -322,8 +322,67 @@ func c09TTLExhaustive(r *core.Run) {
 			nsReads++
 		}
 	})
-	r.Check(divs == nsReads && divs >= 5, "ttl-exhaustive", fnPrepareTTL+" millisecond conversion", site(r, f.Pos()),
-		fmt.Sprintf("%d nanosecond readings, %d divisions by 1e6", nsReads, divs), fmt.Sprintf("%d nanosecond readings but %d divisions by 1e6: some ttl is stored in the wrong unit", nsReads, divs))
+	// every nanosecond reading that is used arithmetically reaches the result through a
+	// division by 1e6 (a reading that is only compared, e.g. ns != 0, is not a conversion)
+	undivided := 0
+	used := 0
+	core.Instrs(f, func(in ssa.Instruction) {
+		c, ok := in.(*ssa.Call)
+		if !ok || methodName(c) != "Nanoseconds" {
+			return
+		}
+		arith := false
+		var reachesUndivided func(v ssa.Value, depth int) bool
+		reachesUndivided = func(v ssa.Value, depth int) bool {
+			if depth > 8 {
+				return false
+			}
+			refs := v.Referrers()
+			if refs == nil {
+				return false
+			}
+			for _, ref := range *refs {
+				switch x := ref.(type) {
+				case *ssa.BinOp:
+					if core.IsCompare(x.Op) {
+						continue
+					}
+					arith = true
+					if x.Op == token.QUO {
+						if k, isK := x.Y.(*ssa.Const); isK && k.Value != nil && k.Int64() == 1000000 {
+							continue // converted
+						}
+					}
+					if reachesUndivided(x, depth+1) {
+						return true
+					}
+				case *ssa.Convert:
+					if reachesUndivided(x, depth+1) {
+						return true
+					}
+				case *ssa.Phi:
+					if reachesUndivided(x, depth+1) {
+						return true
+					}
+				case *ssa.Return:
+					return true
+				case *ssa.Store:
+					return true
+				}
+			}
+			return false
+		}
+		bad := reachesUndivided(c, 0)
+		if arith {
+			used++
+			if bad {
+				undivided++
+			}
+		}
+	})
+	_, _ = divs, nsReads
+	r.Check(undivided == 0 && used >= 5, "ttl-exhaustive", fnPrepareTTL+" millisecond conversion", site(r, f.Pos()),
+		fmt.Sprintf("%d nanosecond quantities, each divided by 1e6 before it is stored", used), fmt.Sprintf("%d of %d nanosecond quantities reach the result without a division by 1e6: some ttl is stored in the wrong unit", undivided, used))
 	// Incr/Decr keep the ttl: HasPX set when the loaded ttl != 0
 	if a := r.Need("ttl-exhaustive", fnAtomicIncrDecr); a != nil {
 		ok := false
